@@ -152,8 +152,10 @@ class Case(object):
         self.items = {}
         self.order = []
         self.maps = {}
+        self.twins = {}  # same writes, never used as an operand / evaluated / composed
         self.held = {}
         self.mm = MemoryMap()
+        self.mm2 = MemoryMap()
         self.mm_model = {}
         self.log = EventLog()
         self.used = 0
@@ -240,9 +242,62 @@ class Case(object):
             return
         self.held[mid] = snap
 
+    def _map_state(self, m):
+        """entries by value (K valuations; an equivalent re-shaping of a stored value is
+        allowed) and memory by content (adjacent raw parts joined)"""
+        ent = {}
+        for loc, v in m:
+            ent[str(loc)] = [v.size] + [self.evaluate(v, k) for k in range(K)]
+        zones = []
+        mm = m.mmap
+        for rel in sorted(mm._zones, key=lambda x: str(x)):
+            z = mm._zones[rel]
+            lo, hi = z.range()
+            if hi > lo:
+                zones.append("%s@%d: %s" % (rel, lo, " ".join(self._join_parts(z.read(lo, hi - lo)))))
+        return ent, zones
+
+    @staticmethod
+    def _join_parts(parts):
+        out = []
+        raw = b""
+        for p in parts:
+            if isinstance(p, (bytes, bytearray)):
+                raw += bytes(p)
+                continue
+            if raw:
+                out.append("b:" + raw.hex())
+                raw = b""
+            out.append("%s/%d" % (p, p.size))
+        if raw:
+            out.append("b:" + raw.hex())
+        return out
+
+    def check_twins(self, op):
+        for mid, tw in self.twins.items():
+            m = self.maps.get(mid)
+            if m is None or tw is None:
+                continue
+            a, b = self._map_state(m), self._map_state(tw)
+            self.decided += 1
+            if set(a[0]) != set(b[0]):
+                raise Failure("map-differs-from-unused-twin", {"map": mid, "what": "locations", "used": sorted(a[0])[:6], "twin": sorted(b[0])[:6]})
+            for l in a[0]:
+                va, vb = a[0][l], b[0][l]
+                if va[0] != vb[0]:
+                    raise Failure("map-differs-from-unused-twin", {"map": mid, "what": "size", "loc": l, "used": va, "twin": vb})
+                for k in range(K):
+                    if va[1 + k][0] == "cst" and vb[1 + k][0] in ("cst", "exc") and va[1 + k] != vb[1 + k] or (vb[1 + k][0] == "cst" and va[1 + k][0] == "exc"):
+                        raise Failure("map-differs-from-unused-twin", {"map": mid, "what": "value", "loc": l, "valuation": k, "used": va[1 + k], "twin": vb[1 + k]})
+            if a[1] != b[1]:
+                raise Failure("map-differs-from-unused-twin", {"map": mid, "what": "memory", "used": a[1][:6], "twin": b[1][:6]})
+        if self._join_parts(self.mm.read(0, 160)) != self._join_parts(self.mm2.read(0, 160)):
+            raise Failure("memorymap-differs-from-unused-twin", {"used": self._join_parts(self.mm.read(0, 160))[:8], "twin": self._join_parts(self.mm2.read(0, 160))[:8]})
+
     def check_maps(self, op):
         from ..heap import fingerprint
 
+        self.check_twins(op)
         for mid, snap in self.held.items():
             m = self.maps.get(mid)
             if m is None:
@@ -425,7 +480,10 @@ class Case(object):
                 x.sf = True
             return x
         if k == "map_set":
+            if op["m"] not in self.maps:
+                self.twins[op["m"]] = mapper()
             m = self.maps.setdefault(op["m"], mapper())
+            tw = self.twins.get(op["m"])
             if "reg" in op:
                 r = self.regs.get(op["reg"])
                 if r is None:
@@ -434,15 +492,21 @@ class Case(object):
                     if op["pos"] + a.size > r.size:
                         return None
                     m[r[op["pos"] : op["pos"] + a.size]] = a
+                    if tw is not None:
+                        tw[r[op["pos"] : op["pos"] + a.size]] = a
                 elif r.size != a.size:
                     return None
                 else:
                     m[r] = a
+                    if tw is not None:
+                        tw[r] = a
             else:
                 base = self.regs.get(op["base"])
                 if base is None or a.size % 8:
                     return None
                 m[mem(base + op["disp"], a.size)] = a
+                if tw is not None:
+                    tw[mem(base + op["disp"], a.size)] = a
             self.st.hit("probe:map-holds-published")
             return None
         if k == "map_get":
@@ -471,6 +535,7 @@ class Case(object):
             if m1 is None or m2 is None:
                 return None
             self.maps[op["m"]] = m1 >> m2
+            self.twins.pop(op["m"], None)
             self.st.hit("probe:compose-done")
             return None
         if k == "merge":
@@ -478,16 +543,35 @@ class Case(object):
             if m1 is None or m2 is None:
                 return None
             self.maps[op["m"]] = merge(m1, m2, **(op.get("opts") or {}))
+            self.twins.pop(op["m"], None)
             self.st.hit("probe:merge-done")
             return None
         if k == "mmw":
             if a.size % 8:
                 return None
             self.mm.write(op["addr"], a, op.get("en", 1))
+            self.mm2.write(op["addr"], a, op.get("en", 1))
             self.st.hit("probe:memory-holds-published")
             return None
         if k == "mmr":
             self.mm.read(op["addr"], op["l"])
+            return None
+        if k == "mm_use":
+            # uses of a memory map that must leave it as it was
+            how = op["how"]
+            if how == "copy":
+                c = self.mm.copy()
+                c.write(op["addr"], cst(0xA5, 8))
+            elif how == "restruct":
+                self.mm.restruct()
+            elif how == "merge-into-fresh":
+                from amoco.system.memory import MemoryMap as _MM
+
+                f = _MM()
+                f.write(op["addr"], b"zz")
+                f.merge(self.mm.copy())
+            else:
+                pickle.loads(pickle.dumps(self.mm))
             return None
         if k == "str":
             str(a)
@@ -599,6 +683,12 @@ class Case(object):
             raise
         except SimFault:
             outcome = "aborted"
+            if op.get("op") == "map_set":
+                # a write to the map itself was interrupted: the property says nothing about
+                # the half-written holder, only about the operands; forget the map
+                self.maps.pop(op.get("m"), None)
+                self.twins.pop(op.get("m"), None)
+                self.held.pop(op.get("m"), None)
         except (ValueError, TypeError, ZeroDivisionError, AttributeError, NotImplementedError, OverflowError, AssertionError, MemoryError, KeyError, IndexError, RecursionError) as e:
             # the operation itself is allowed to refuse; its effect on others is what we observe
             outcome = "raised:" + type(e).__name__
@@ -643,6 +733,7 @@ class Gen(object):
         self.left = 0 if r is None else r.choice([5, 8, 12, 20, 30, 40])
         self.boot = []
         self.nmaps = 0
+        self.memhist = {}
 
     def newid(self):
         self.nid += 1
@@ -670,7 +761,7 @@ class Gen(object):
 
     def op(self, r, case):
         kinds = [("bin", 10), ("un", 1.5), ("call", 2), ("slice", 2), ("composer", 1.5), ("tst", 1.5), ("vec", 1), ("ext", 1.5), ("simplify", 5), ("eval", 2),
-                 ("fresh_mut", 1), ("map_set", 5), ("map_get", 2), ("map_read_modify", 4), ("compose", 1), ("merge", 1), ("mmw", 1.5), ("mmr", 0.7), ("str", 1), ("pickle", 2), ("pickle_fresh", 1.5)]
+                 ("fresh_mut", 1), ("map_set", 6), ("map_get", 3), ("map_read_modify", 4), ("compose", 1), ("merge", 1), ("mmw", 1.5), ("mmr", 0.7), ("mm_use", 1.0), ("str", 1), ("pickle", 2), ("pickle_fresh", 1.5)]
         k = weighted(r, kinds)
         a = self.pick(r, case)
         if a is None:
@@ -745,7 +836,13 @@ class Gen(object):
             op.update({"b": b, "how": r.choice(["signed", "unsigned", "sf"]), "pub": pub})
         elif k == "map_set":
             m = "m%d" % r.randrange(3)
-            if r.random() < 0.6:
+            if r.random() < 0.35:
+                c = self.pick(r, case, None, lambda it: it.e._is_cst and it.size % 8 == 0)
+                if c is not None:
+                    a = c
+                    sa = case.items[a].size
+                    op["a"] = a
+            if r.random() < (0.6 if not case.items[a].e._is_cst else 0.2):
                 regs = [n for n, x in case.regs.items() if x.size == sa]
                 bigger = [n for n, x in case.regs.items() if x.size > sa]
                 if bigger and (not regs or r.random() < 0.4):
@@ -758,7 +855,17 @@ class Gen(object):
             else:
                 if sa % 8 or "a32" not in case.regs:
                     return None
-                op.update({"m": m, "base": "a32", "disp": r.randrange(0, 16)})
+                # push-like (descending, adjacent), rewrite of an earlier slot, or anywhere
+                hist = self.memhist.setdefault(m, [])
+                x = r.random()
+                if hist and x < 0.4:
+                    disp = hist[-1][0] - sa // 8
+                elif hist and x < 0.7:
+                    disp = r.choice(hist)[0]
+                else:
+                    disp = r.choice([0, 4, 8, 12, 16, r.randrange(0, 24)])
+                hist.append((disp, sa // 8))
+                op.update({"m": m, "base": "a32", "disp": disp})
         elif k == "map_get":
             op.update({"m": "m%d" % r.randrange(3), "pub": pub})
         elif k == "map_read_modify":
@@ -773,6 +880,8 @@ class Gen(object):
             op.update({"addr": r.randrange(0, 100), "en": r.choice([1, 1, -1])})
         elif k == "mmr":
             op = {"op": "mmr", "addr": r.randrange(0, 100), "l": r.randrange(1, 24)}
+        elif k == "mm_use":
+            op = {"op": "mm_use", "how": r.choice(["copy", "copy", "restruct", "merge-into-fresh", "pickle"]), "addr": r.randrange(0, 100)}
         elif k == "pickle":
             what = r.choice(["exp", "exp", "map", "mm"])
             op.update({"what": what, "m": "m%d" % r.randrange(3)})
